@@ -220,10 +220,10 @@ func (x *prioExec) afterFault() {
 	}
 	if !x.sc.simple() && !lUnknown {
 		total := int64(x.res.Received)
-		hi := r2 + l
-		if in || r1 != r2 {
-			hi++
-		}
+		// one item may be between the channel and the stepper's counter at the fault (the stepper
+		// is a single goroutine; it counts an item after it has taken it, also in its non-blocking pulls)
+		hi := r2 + l + 1
+		_ = in
 		if total < r1+l || total > hi {
 			x.fail("C15", "delivery-after-fault", "divider fault (%s): %d items had been received and %d were in the output buffer at the fault, but %d were received in total (expected %d..%d): the discipline kept delivering after the fault or lost what it had sent", desc, r1, l, total, r1+l, hi)
 		}
